@@ -44,6 +44,19 @@ def main():
             failures.append(('T00', 'expected refutations %r, got %r\n%s' % (sorted(T00_engine.EXPECTED_REFUTED),
                                                                               sorted(got), out[-1500:])))
         print('T00 engine self-test:', 'ok' if not failures else 'FAILED')
+    # 1a. every sidecar module must import under the repository's interpreter (no z3): replay scripts need them
+    if not args.only or args.only.lower() == 'imports':
+        code = ("import sys, glob, os, importlib, warnings; warnings.simplefilter('ignore'); sys.path.insert(0, %r)\n"
+                "bad = []\n"
+                "for f in sorted(glob.glob(os.path.join(%r, 'contracts', '[CT][0-9][0-9]*.py'))):\n"
+                "    try: importlib.import_module('contracts.' + os.path.basename(f)[:-3])\n"
+                "    except Exception as e: bad.append((f, repr(e)))\n"
+                "print(bad); sys.exit(1 if bad else 0)\n" % (VERIF, VERIF))
+        p = subprocess.run(['/venv/bin/python', '-W', 'ignore', '-c', code], capture_output=True, text=True,
+                           env=dict(os.environ, PYTHONPATH=os.path.join(REPO, 'src')))
+        print('sidecar modules import without z3 (replay side):', 'ok' if p.returncode == 0 else 'FAILED')
+        if p.returncode != 0:
+            failures.append(('imports', (p.stdout + p.stderr)[-1500:]))
     # 1b. models and interpreter against CPython
     if not args.only:
         p = subprocess.run([sys.executable, '-m', 'pyvc.modelcheck', '3'], cwd=VERIF, capture_output=True, text=True)
